@@ -76,6 +76,8 @@ def gen_case(rng):
       m = rng.choice([max(1, ww - 1), min(1023, ww + 1), n])
       v = ('b', m, bu.rand_value(rng, m))
     else: v = ('i', bu.rand_int(rng, ww))
+    if rng.random() < 0.25 and step is None and v[0] == 'i':
+      return ['setslice', n, x, lo, hi, step, asbits, list(v), 'imatmul']
     if rng.random() < 0.06:           # x[lo:hi] = x with the very same object on both sides
       return ['setslice', n, x, lo, hi, step, asbits, ['b', n, x], 'alias']
     return ['setslice', n, x, lo, hi, step, asbits, list(v)]
@@ -163,7 +165,14 @@ def impl_eval(c):
     return bu.run_read_fresh(lambda: x[sl], x)
   if k == 'setslice':
     x = bu.mk(c[1], c[2]); sl = slice(as_bound(c[3], c[6]), as_bound(c[4], c[6]), c[5]); v = bu.opnd_real(c[7])
-    if len(c) > 8: v = x            # aliased write: the right-hand side is the target object itself
+    if len(c) > 8 and c[8] == 'alias': v = x            # aliased write: the right-hand side is the target object itself
+    if len(c) > 8 and c[8] == 'imatmul':
+      # the usual PyMTL idiom `x[lo:hi] @= v`: Python reads the slice, applies @= to that value and writes it back; a value
+      # that does not fit the slice must raise here as well (the range check of this form lives in Bits.__imatmul__)
+      def f():
+        x[sl] @= v
+        return x
+      return write_checked(f, x, c[1], c[2], v, c[7])
     def f():
       x[sl] = v
       return x
@@ -299,6 +308,8 @@ CORPUS = [
   ['setslice', 8, 0xab, 0, 4, 0, False, ['i', 1]],
   ['setslice', 8, 0x5a, None, None, None, False, ['b', 8, 0x5a], 'alias'], ['setslice', 8, 0x5a, 0, 8, None, False, ['b', 8, 0x5a], 'alias'],
   ['setslice', 8, 0x5a, 0, 4, None, False, ['b', 8, 0x5a], 'alias'],
+  ['setslice', 8, 0xab, 0, 4, None, False, ['i', -9], 'imatmul'], ['setslice', 8, 0xab, 0, 4, None, False, ['i', -8], 'imatmul'], ['setslice', 8, 0xab, 2, 4, None, False, ['i', -3], 'imatmul'],
+  ['setslice', 8, 0xab, 0, 4, None, False, ['i', 15], 'imatmul'], ['setslice', 8, 0xab, 0, 4, None, False, ['i', 16], 'imatmul'],
   ['getbit', 8, 0xab, 8], ['getbit', 8, 0xab, -1], ['getbit', 8, 0xab, 7], ['getbit', 3, 5, 3, 2], ['getbit', 7, 0x55, 7, 3], ['getbit', 1, 0, 1, 1],
   ['getbit', 31, 0x7fffffff, 31, 5], ['getbit', 3, 5, 2, 2], ['setbit', 3, 5, 3, ['i', 1], 2], ['setbit', 8, 0xab, 2, ['i', -1]],
   ['setbit', 8, 0xab, 2, ['i', 2]], ['setbit', 8, 0xab, 2, ['b', 2, 1]], ['setbit', 8, 0xab, 8, ['i', 1]],
